@@ -1,1 +1,159 @@
-(* C07 placeholder *)
+(* C07.v — property C07: array (vectorised) entry points equal the scalar entry points row by row.  Statements only.
+   Every `_b1_R` is the regenerated ARRAY entry point called with a one-row array (row 0 returned), every `_b2_R` the
+   same entry point called with a two-row array (row 1 returned; the k_* arguments are the other row), every `_s_R` the
+   regenerated SCALAR entry point.  Equalities are equalities of outcomes: values and raised exceptions. *)
+From Coq Require Import Reals List Lra.
+From AhrsLib Require Import Base.
+From AhrsGen Require Import C07gen_R.
+From AhrsProps Require Import C07_tac C07_quat C07_dcm C07_metrics C07_est.
+Import ListNotations.
+Open Scope R_scope.
+
+(* QuaternionArray vs Quaternion: conjugate, Euler angles, rotation matrix, both storage orders; ALL rows (zero rows raise
+   ValueError on both paths; the versor gate of QuaternionArray.to_DCM never fires on a normalised row) *)
+Theorem C07_quaternion_array_rows_equal_scalar : forall w x y z,
+  C07_conj_b1_R w x y z = C07_conj_s_R w x y z /\ C07_conj_S_b1_R w x y z = C07_conj_S_s_R w x y z /\
+  C07_to_angles_b1_R w x y z = C07_to_angles_s_R w x y z /\ C07_to_angles_S_b1_R w x y z = C07_to_angles_S_s_R w x y z /\
+  C07_to_DCM_b1_R w x y z = C07_to_DCM_s_R w x y z /\ C07_to_DCM_S_b1_R w x y z = C07_to_DCM_S_s_R w x y z.
+Proof.
+  intros w x y z. split; [exact (conj_twin w x y z)|]. split; [exact (conj_S_twin w x y z)|].
+  split; [exact (to_angles_twin w x y z)|]. split; [exact (to_angles_S_twin w x y z)|].
+  split; [exact (to_DCM_twin w x y z)|exact (to_DCM_S_twin w x y z)].
+Qed.
+Print Assumptions C07_quaternion_array_rows_equal_scalar.
+
+(* the same on a two-row batch: row 1 equals the scalar call whatever the (non-zero) other row is *)
+Theorem C07_quaternion_array_two_rows : forall k_w k_x k_y k_z w x y z, 0 < k_w*k_w + k_x*k_x + k_y*k_y + k_z*k_z ->
+  C07_conj_b2_R k_w k_x k_y k_z w x y z = C07_conj_s_R w x y z /\
+  C07_to_angles_b2_R k_w k_x k_y k_z w x y z = C07_to_angles_s_R w x y z /\
+  C07_to_DCM_b2_R k_w k_x k_y k_z w x y z = C07_to_DCM_s_R w x y z.
+Proof.
+  intros k_w k_x k_y k_z w x y z H. split; [exact (conj_twin2 k_w k_x k_y k_z w x y z H)|].
+  split; [exact (to_angles_twin2 k_w k_x k_y k_z w x y z H)|exact (to_DCM_twin2 k_w k_x k_y k_z w x y z H)].
+Qed.
+Print Assumptions C07_quaternion_array_two_rows.
+Example C07_two_rows_inhabited : 0 < 0*0 + 1*1 + 0*0 + 0*0.
+Proof. lra. Qed.
+
+(* free functions with a 1-D and a 2-D branch *)
+Theorem C07_q2R_rpy2q_chordal_branches_agree : forall w x y z k_w k_x k_y k_z,
+  C07_q2R_v1_b1_R w x y z = C07_q2R_v1_s_R w x y z /\ C07_q2R_v2_b1_R w x y z = C07_q2R_v2_s_R w x y z /\
+  C07_q2R_v1_b2_R k_w k_x k_y k_z w x y z = C07_q2R_v1_s_R w x y z /\
+  C07_rpy2q_b1_R w x y = C07_rpy2q_s_R w x y /\
+  (forall r00 r01 r02 r10 r11 r12 r20 r21 r22 s00 s01 s02 s10 s11 s12 s20 s21 s22,
+   C07_chordal_b1_R r00 r01 r02 r10 r11 r12 r20 r21 r22 s00 s01 s02 s10 s11 s12 s20 s21 s22 =
+   C07_chordal_s_R r00 r01 r02 r10 r11 r12 r20 r21 r22 s00 s01 s02 s10 s11 s12 s20 s21 s22).
+Proof.
+  intros w x y z k_w k_x k_y k_z. split; [exact (q2R_v1_twin w x y z)|]. split; [exact (q2R_v2_twin w x y z)|].
+  split; [exact (q2R_v1_twin2 k_w k_x k_y k_z w x y z)|]. split; [exact (rpy2q_twin w x y)|exact chordal_twin].
+Qed.
+Print Assumptions C07_q2R_rpy2q_chordal_branches_agree.
+
+(* construction from roll-pitch-yaw, PARTIAL: on the range the scalar path accepts (outside it the scalar path raises
+   and the array path does not: C07_from_rpy_range_refuted) *)
+Theorem C07_from_rpy_partial : forall a0 a1 a2,
+  - 2 * PI <= a0 <= 2 * PI -> - 2 * PI <= a1 <= 2 * PI -> - 2 * PI <= a2 <= 2 * PI ->
+  C07_from_rpy_b1_R a0 a1 a2 = C07_from_rpy_s_R a0 a1 a2.
+Proof. exact from_rpy_twin. Qed.
+Print Assumptions C07_from_rpy_partial.
+Example C07_from_rpy_inhabited : - 2 * PI <= 1 <= 2 * PI.
+Proof. pose proof PI_RGT_0. pose proof PI2_3_2. unfold PI2 in *. split; lra. Qed.
+
+(* hughes 3x3 branch vs N-by-3x3 branch: equal for ALL matrices (holds since the repair of the batch branch) *)
+Theorem C07_hughes_branches_agree : forall r00 r01 r02 r10 r11 r12 r20 r21 r22,
+  C07_hughes_b1_R r00 r01 r02 r10 r11 r12 r20 r21 r22 = C07_hughes_s_R r00 r01 r02 r10 r11 r12 r20 r21 r22.
+Proof. exact hughes_twin. Qed.
+Print Assumptions C07_hughes_branches_agree.
+
+(* chiaverini 3x3 branch vs N-by-3x3 branch, PARTIAL: away from half-turns (trace > -1); at an exact half-turn the two
+   branches differ: C07_chiaverini_half_turn_refuted *)
+Theorem C07_chiaverini_partial : forall k00 k01 k02 k10 k11 k12 k20 k21 k22 r00 r01 r02 r10 r11 r12 r20 r21 r22,
+  -1 < r00 + r11 + r22 ->
+  C07_chiaverini_b1_R r00 r01 r02 r10 r11 r12 r20 r21 r22 = C07_chiaverini_s_R r00 r01 r02 r10 r11 r12 r20 r21 r22 /\
+  C07_chiaverini_b2_R k00 k01 k02 k10 k11 k12 k20 k21 k22 r00 r01 r02 r10 r11 r12 r20 r21 r22 =
+  C07_chiaverini_s_R r00 r01 r02 r10 r11 r12 r20 r21 r22.
+Proof.
+  intros. split; [apply chiaverini_twin_partial; assumption|apply chiaverini_twin2_partial; assumption].
+Qed.
+Print Assumptions C07_chiaverini_partial.
+Example C07_chiaverini_inhabited : -1 < 1 + 1 + 1.
+Proof. lra. Qed.
+
+(* Tilt and SAAM: the vectorised copy equals estimate() for every non-zero sample, every representation traced, one-row
+   and two-row batches *)
+Theorem C07_tilt_saam_vectorised_equal_estimate : forall k_ax k_ay k_az k_mx k_my k_mz ax ay az mx my mz,
+  0 < ax*ax + ay*ay + az*az -> 0 < mx*mx + my*my + mz*mz ->
+  C07_tilt_quaternion_b1_R ax ay az mx my mz = C07_tilt_quaternion_s_R ax ay az mx my mz /\
+  C07_tilt_angles_b1_R ax ay az mx my mz = C07_tilt_angles_s_R ax ay az mx my mz /\
+  C07_tilt_angles_b2_R k_ax k_ay k_az k_mx k_my k_mz ax ay az mx my mz = C07_tilt_angles_s_R ax ay az mx my mz /\
+  C07_tilt_nomag_b1_R ax ay az = C07_tilt_nomag_s_R ax ay az /\
+  C07_saam_b1_R ax ay az mx my mz = C07_saam_s_R ax ay az mx my mz /\
+  C07_saam_b2_R k_ax k_ay k_az k_mx k_my k_mz ax ay az mx my mz = C07_saam_s_R ax ay az mx my mz.
+Proof.
+  intros k_ax k_ay k_az k_mx k_my k_mz ax ay az mx my mz Ha Hm.
+  split; [exact (tilt_quaternion_twin ax ay az mx my mz Ha Hm)|]. split; [exact (tilt_angles_twin ax ay az mx my mz Ha Hm)|].
+  split; [exact (tilt_angles_twin2 k_ax k_ay k_az k_mx k_my k_mz ax ay az mx my mz Ha Hm)|].
+  split; [exact (tilt_nomag_twin ax ay az Ha)|]. split; [exact (saam_twin ax ay az mx my mz Ha Hm)|].
+  exact (saam_twin2 k_ax k_ay k_az k_mx k_my k_mz ax ay az mx my mz Ha Hm).
+Qed.
+Print Assumptions C07_tilt_saam_vectorised_equal_estimate.
+Example C07_tilt_inhabited : 0 < 0*0 + 0*0 + 1*1.
+Proof. lra. Qed.
+
+(* loop-style estimator FAMC: a one-sample call equals a one-row batch (all samples, including the rejected ones) *)
+Theorem C07_one_sample_equals_one_row_batch : forall ax ay az mx my mz,
+  C07_famc_b1_R ax ay az mx my mz = C07_famc_s_R ax ay az mx my mz.
+Proof. exact famc_twin. Qed.
+Print Assumptions C07_one_sample_equals_one_row_batch.
+
+(* metric functions, PARTIAL: the batch branch equals the ndim==1 branch unless the latter took its allclose shortcut
+   (known finding: the shortcut returns exactly 0 for rotations closer than about 1e-5 rad, the batch branch does not) *)
+Theorem C07_metrics_partial : forall a b c d w x y z,
+  (C07_qdist_b1_R a b c d w x y z = C07_qdist_s_R a b c d w x y z \/ C07_qdist_s_R a b c d w x y z = Val [0]) /\
+  (C07_qeip_b1_R a b c d w x y z = C07_qeip_s_R a b c d w x y z \/ C07_qeip_s_R a b c d w x y z = Val [0]) /\
+  (C07_qcip_b1_R a b c d w x y z = C07_qcip_s_R a b c d w x y z \/ C07_qcip_s_R a b c d w x y z = Val [0]) /\
+  (forall k_a k_b k_c k_d k_w k_x k_y k_z,
+   C07_qeip_b2_R k_a k_b k_c k_d k_w k_x k_y k_z a b c d w x y z = C07_qeip_s_R a b c d w x y z
+   \/ C07_qeip_s_R a b c d w x y z = Val [0]).
+Proof.
+  intros. split; [apply qdist_twin_partial|]. split; [apply qeip_twin_partial|]. split; [apply qcip_twin_partial|].
+  intros. apply qeip_twin2_partial.
+Qed.
+Print Assumptions C07_metrics_partial.
+
+(* lifting to all N >= 0 rows: an array entry point that treats the row axis by broadcasting or by a loop is the map of
+   its row function (Gallina model `batch`); row-wise equality with the scalar entry point then gives batch = map scalar,
+   and row i of the batch is the scalar call on row i *)
+Theorem C07_batch_is_map_of_scalar : forall (Row Out : Type) (single brow : Row -> Out) (rows : list Row),
+  (forall r, In r rows -> brow r = single r) ->
+  batch brow rows = map single rows /\ length (batch brow rows) = length rows /\
+  (forall i d, (i < length rows)%nat -> nth i (batch brow rows) (brow d) = single (nth i rows d)).
+Proof.
+  intros Row Out single brow rows H. split; [exact (batch_is_map_single single brow rows H)|].
+  split; [exact (batch_length brow rows)|]. intros i d Hi. exact (batch_nth single brow rows i d H Hi).
+Qed.
+Print Assumptions C07_batch_is_map_of_scalar.
+
+Theorem C07_to_DCM_all_rows : forall rows : list row4,
+  batch (app4 C07_to_DCM_b1_R) rows = map (app4 C07_to_DCM_s_R) rows /\
+  batch (app4 C07_conj_b1_R) rows = map (app4 C07_conj_s_R) rows /\
+  batch (app4 C07_to_angles_b1_R) rows = map (app4 C07_to_angles_s_R) rows.
+Proof.
+  intros rows. split; [|split]; apply batch_is_map_single; intros [[[w x] y] z] _; simpl.
+  - exact (to_DCM_twin w x y z). - exact (conj_twin w x y z). - exact (to_angles_twin w x y z).
+Qed.
+Print Assumptions C07_to_DCM_all_rows.
+
+Theorem C07_tilt_saam_all_rows : forall rows : list row6,
+  (forall r, In r rows -> let '(ax, ay, az, mx, my, mz) := r in 0 < ax*ax + ay*ay + az*az /\ 0 < mx*mx + my*my + mz*mz) ->
+  batch (app6 C07_tilt_quaternion_b1_R) rows = map (app6 C07_tilt_quaternion_s_R) rows /\
+  batch (app6 C07_saam_b1_R) rows = map (app6 C07_saam_s_R) rows.
+Proof.
+  intros rows G. split; apply batch_is_map_single; intros [[[[[ax ay] az] mx] my] mz] Hin;
+  specialize (G _ Hin); simpl in G; destruct G as [Ha Hm]; simpl.
+  - exact (tilt_quaternion_twin ax ay az mx my mz Ha Hm). - exact (saam_twin ax ay az mx my mz Ha Hm).
+Qed.
+Print Assumptions C07_tilt_saam_all_rows.
+Example C07_all_rows_inhabited : forall r, In r [(0, 0, 1, 1, 0, 0); (1, 2, 3, 0, 1, 0)] ->
+  let '(ax, ay, az, mx, my, mz) := r in 0 < ax*ax + ay*ay + az*az /\ 0 < mx*mx + my*my + mz*mz.
+Proof. intros r [<-|[<-|[]]]; simpl; split; lra. Qed.
